@@ -478,11 +478,13 @@ def task_emitted_binary(params, rec):
     cap = {numpy.float16: 4, numpy.float32: 12, numpy.float64: 40}[dt]
     rnd = random.Random(f"c12eb-{params['seed']}-{params['dtype']}")
     for op, sign in (("add", 1), ("subtract", -1)):
-        for n1, n2 in ((3, 2), (2, 2), (1, 3)):
+        for n1, n2, wrap in ((3, 2, False), (3, 2, True), (2, 2, True), (1, 3, False)):
             if n1 + n2 > cap:
                 continue
             names = [f"a{i}" for i in range(n1)] + [f"b{i}" for i in range(n2)]
-            src = "def tr(ctx, %s):\n    return apmath.%s(ctx, [%s], [%s], functional=True)\n" % (", ".join(names), op, ", ".join(names[:n1]), ", ".join(names[n1:]))
+            # the traced result is a selection between per-dtype lists; user code passes it on as it is or rebuilds a list from it (ctx.list iterates it)
+            call = "apmath.%s(ctx, [%s], [%s], functional=True)" % (op, ", ".join(names[:n1]), ", ".join(names[n1:]))
+            src = "def tr(ctx, %s):\n    return %s\n" % (", ".join(names), f"ctx.list({call})" if wrap else call)
             ns = dict(apmath=apmath)
             exec(src, ns)
             ctx = fa.Context(paths=[fa.algorithms])
